@@ -277,6 +277,7 @@ v("C18", "reverse-dest-renamed", LD, '        "-R",\n        "--reverse",\n     
   '        "-R",\n        "--reverse",\n        dest="rev",\n        action="store_true",\n        help="""Traverse directories and include', rules=["C18.R2"])
 v("C18", "nodmd-stores-true", LD, '        "--nodmd",\n        dest="include_dmd",\n        action="store_false",', '        "--nodmd",\n        dest="include_dmd",\n        action="store_true",', rules=["C18.R2"])
 v("C18", "mv-runs-cp", LD, "    parser.set_defaults(func=_run_mv)", "    parser.set_defaults(func=_run_cp)", rules=["C18.R3"])
+v("C19", "gap-from-requested-index", RF, "        gap_size = (next_avail_sample - self._next_avail_sample) - nwritten", "        gap_size = next_sample - self._next_avail_sample", rules=["C19.R2"])
 v("C19", "gap-without-nwritten", RF, "        gap_size = (next_avail_sample - self._next_avail_sample) - nwritten", "        gap_size = next_avail_sample - self._next_avail_sample", rules=["C19.R2"])
 v("C19", "returns-prestate", RF, "        self._total_gap_samples += gap_size\n        self._next_avail_sample = next_avail_sample\n\n        return next_avail_sample\n",
   "        self._total_gap_samples += gap_size\n        prev = self._next_avail_sample\n        self._next_avail_sample = next_avail_sample\n\n        return prev\n", rules=["C19.R2"])
